@@ -47,6 +47,7 @@ type Contract struct {
 	Allocates   bool
 	ModifiesAll bool
 	MayPanic    bool
+	View        bool // contract on a function of another package, as seen from this package
 	RefIface    string // refine: "pkg.Iface"
 	RefVar      string
 	RefType     string
@@ -92,6 +93,7 @@ type PkgSpec struct {
 	Axioms    []*Clause
 	TypeInvs  map[string]string // type name -> pred name
 	DynCalls  map[string]string // signature string -> "pure"
+	Abstract  []string          // named types viewed as records (e.g. bytecode.Type)
 	Hash      string
 }
 
@@ -170,6 +172,10 @@ func ParseContractFile(path, pkgPath string) (*PkgSpec, error) {
 				p.Line = ln + 1
 				ps.Preds = append(ps.Preds, p)
 				curPred = p
+				cur = nil
+				continue
+			case "abstract":
+				ps.Abstract = append(ps.Abstract, strings.TrimSpace(strings.TrimPrefix(text, "abstract")))
 				cur = nil
 				continue
 			case "dyncall":
@@ -808,6 +814,12 @@ func (e *Engine) GenerateOverlay(ps *PkgSpec, pkg *types.Package, fnByKey map[st
 		case "func":
 			fn := fnByKey[con.Key]
 			if fn == nil {
+				fn = e.viewTarget(pkg, con.Key)
+				if fn != nil {
+					con.View = true
+				}
+			}
+			if fn == nil {
 				errs = append(errs, fmt.Sprintf("%s:%d: contract target %q not found", ps.File, con.Line, con.Key))
 				continue
 			}
@@ -836,7 +848,11 @@ func (e *Engine) GenerateOverlay(ps *PkgSpec, pkg *types.Package, fnByKey map[st
 					}
 				}
 				us.names = append([]string{"self"}, us.names...)
-				us.params = append([]string{"self " + con.Implements}, us.params...)
+				selfT := con.Implements
+				if i := strings.Index(selfT, "."); i >= 0 {
+					selfT = selfT[:i]
+				}
+				us.params = append([]string{"self " + selfT}, us.params...)
 			}
 		case "type":
 			var err error
@@ -941,6 +957,11 @@ func (e *Engine) GenerateOverlay(ps *PkgSpec, pkg *types.Package, fnByKey map[st
 		}
 	}
 	sb.WriteString(helperSrc)
+	for _, a := range ps.Abstract {
+		if a == "bytecode.Type" {
+			sb.WriteString("func bcop(i bytecode.Type) bytecode.OpCode { panic(\"spec\") }\nfunc bck(i bytecode.Type, sel int) uint64 { panic(\"spec\") }\nfunc bca(i bytecode.Type, sel int) int { panic(\"spec\") }\nfunc bcmk(op bytecode.OpCode, k0 uint64, a0 int, k1 uint64, a1 int, k2 uint64, a2 int) bytecode.Type { panic(\"spec\") }\n")
+		}
+	}
 	sb.WriteString(text)
 	return sb.String(), nil
 }
